@@ -89,7 +89,8 @@ func main() {
 		"string:empty", "string:multibyte", "string:nul", "bytes:nil", "bytes:empty", "bytes:fixed",
 		"list:nil", "list:empty", "list:nil-element", "list:nested", "map:nil", "map:empty", "map:string-key", "map:int-key",
 		"struct", "arrowser", "ptr:nil:struct", "ptr:nil:int", "ptr:nil:string", "ptr:nil:list", "ptr:set:list",
-		"dict:multi-entry:non-first-selected")
+		"dict:multi-entry:non-first-selected", "int:mixed-signedness", "date:beyond-microsecond-range", "map:nil-value", "map:pointer-value",
+		"probe:named-types")
 
 	nDyn := r.N(260, 3000)
 	perType := r.N(120, 900) // values per type, split over the arms
@@ -261,6 +262,7 @@ func main() {
 
 	// ---- arm: result envelope -------------------------------------------------
 	runResultArm(r, srv, r.N(150, 4000))
+	probeNamedTypes(r)
 
 	r.Set("types_static", len(statics))
 	r.Set("types_dynamic", nDyn)
@@ -440,7 +442,11 @@ func compare(tc *typeCase, arm, stage string, orig, got reflect.Value) []viol {
 	if where == "" {
 		return nil
 	}
-	return []viol{{"roundtrip:" + leafClass(class),
+	sig := "roundtrip:" + leafClass(class)
+	if strings.Contains(class, "map-value:") && strings.HasSuffix(class, ":nil-ness") {
+		sig = "roundtrip:map-value:nil-ness" // one defect, one signature, whatever the value kind
+	}
+	return []viol{{sig,
 		fmt.Sprintf("[%s/%s] field %s (%s): %s", arm, stage, where, class, why),
 		witness(tc, arm, orig, map[string]any{"field": where, "class": class, "difference": why, "decoded": wc.RenderStruct(tc.ss, got)})}}
 }
